@@ -888,6 +888,46 @@ theorem inline_compose_total {V : Type} (sem : OpSem V) (lit : Lit → V)
     hES hEf hEr hsp
   exact ⟨nodes, v', n', E', hr, h1, h2, h4⟩
 
+/-- **`inline_compose_adapt_keep`** (mini-round): the sequence theorem stated directly about what the build emits,
+    `to_onnx` followed by `adapt_inline` per node (`toOnnxAdaptSeq`), for builds in which no inlined model needs
+    conversion - every site's highest default-domain import IS the target opset, or it imports no default domain
+    (then `adapt_inline` returns the build's nodes, whatever the converter is): with pairwise incomparable prefix
+    families in a scope free of them the whole emission succeeds and refines the abstract program `specSeq` on the
+    value names of the build. -/
+theorem inline_compose_adapt_keep {V : Type} (sem : OpSem V) (lit : Lit → V)
+    (hc : ∀ l, sem (constOp l) [] [] = some [some (lit l)])
+    (hid : ∀ v : V, sem identityOp [some v] [] = some [some v])
+    (conv : Graph → Graph) (varNames : List String) (imports : Site → List (String × Nat)) (target : Nat)
+    (U : List String) (sites : List Site) (v n : Space) (E S Es : Env V)
+    (hkeep : ∀ s ∈ sites, sourceVersion (imports s) = none ∨ sourceVersion (imports s) = some target)
+    (hpwn : sites.Pairwise (fun s t => incomp (s.nodeName ++ "__") (t.nodeName ++ "__") = true))
+    (hfree : ∀ s ∈ sites, v.prefixFree s.nodeName = true ∧ n.prefixFree s.nodeName = true)
+    (hU : ∀ x ∈ U, x ∈ v.used) (hu0 : "" ∉ v.used)
+    (hval : ∀ s ∈ sites, s.Valid U)
+    (hpw : sites.Pairwise (fun s t => ∀ r ∈ s.resNames, r ∉ t.resNames))
+    (hES : ∀ x ∈ U, E x = S x) (hEf : ∀ x, x ∉ v.used → E x = none)
+    (hEr : ∀ s ∈ sites, ∀ r ∈ s.resNames, E r = none)
+    (hsp : specSeq sem lit sites S = some Es) :
+    ∃ nodes v' n' E', toOnnxAdaptSeq conv varNames imports target sites v n = .ok (nodes, v', n') ∧
+      evalNodes sem lit nodes E = some E' ∧ (∀ x ∈ U, E' x = Es x) ∧
+      (∀ x, x ∉ v'.used → E' x = none) := by
+  rw [toOnnxAdaptSeq_eq conv varNames imports target sites hkeep]
+  exact inline_compose_total sem lit hc hid U sites v n E S Es hpwn hfree hU hu0 hval hpw hES hEf hEr hsp
+
+/-- non-vacuity: an opset-17 model (ml import listed first) inlined twice, chained, target 17 - nothing is converted
+    even by a converter that would wreck the model; at target 18 the first site IS handed to the converter -/
+example :
+    let m : Graph := .mk ["x"] [] [.mk "" ⟨"", "Neg", "", none⟩ ["x"] ["t"] [],
+                                   .mk "" ⟨"", "Neg", "", none⟩ ["t"] ["y"] []] ["y"] []
+    let sites : List Site := [⟨m, "Inline_0", ["a"], ["b"]⟩, ⟨m, "Inline_1", ["b"], ["c"]⟩]
+    let wreck : Graph → Graph := fun g => .mk g.inputs [] [] g.outputs []
+    ((toOnnxAdaptSeq wreck ["a", "b", "c"] (fun _ => [("ai.onnx.ml", 3), ("", 17)]) 17 sites
+        ⟨["a", "b", "c"], []⟩ ⟨["Inline_0", "Inline_1"], []⟩).toOption.map fun r => r.1.map (·.outs)) =
+      some [["Inline_0__t"], ["b"], ["Inline_1__t"], ["c"]] ∧
+    ((toOnnxAdaptSeq wreck ["a", "b", "c"] (fun _ => [("ai.onnx.ml", 3), ("", 17)]) 18 sites
+        ⟨["a", "b", "c"], []⟩ ⟨["Inline_0", "Inline_1"], []⟩).toOption.map fun r => r.1.map (·.outs)) =
+      some [] := by decide
+
 /-- the build's Inline node names are pairwise incomparable as families; a nested name is not -/
 example : incomp ("Inline_0" ++ "__") ("Inline_1" ++ "__") = true ∧
     incomp ("Inline_1" ++ "__") ("Inline_10" ++ "__") = true ∧
